@@ -61,9 +61,9 @@ func main() {
 		"push",
 		"markdown /",
 	}
-	maxSub := 3
+	maxSub, confMax := 3, 1
 	if rep.Thorough() {
-		maxSub = 4
+		maxSub, confMax = 4, 2
 	}
 	var subsets [][]int
 	kit.Subsets(len(menu), 0, maxSub, func(idx []int) {
@@ -136,6 +136,13 @@ func main() {
 		defer l.Close()
 		srv := l.Server("")
 		local := map[string]int64{}
+		// conformance of the strict writer: for the smaller sites every request is also served by a genuine
+		// net/http server on an in-memory connection and what the client reads is compared with the record
+		var real *kit.RealServer
+		if len(sub) <= confMax {
+			real = kit.NewRealServer(srv)
+			defer real.Close()
+		}
 		customPages := strings.Contains(has["errors"], "404 ")
 		visible := strings.Contains(has["errors"], "visible")
 		for _, b := range behaviours {
@@ -151,6 +158,16 @@ func main() {
 					raw := kit.Get("GET", p, "a.test:8080", hdr...)
 					rec, pv, _ := kit.Serve(srv, raw)
 					rep.Eval(1)
+					if real != nil && pv == nil {
+						rr, err := real.Do(raw)
+						if err != nil {
+							rep.Broken("real server: %v", err)
+						}
+						rep.AddInt("wire_conformance_requests", 1)
+						if d := kit.ConformanceDiff(rec, rr, visible && b.panics != "" /* the body is a stack dump */); len(d) > 0 {
+							rep.Violation("C12/wire/response-read-by-a-real-client-differs-from-the-recorded-one", d[0], c12case{cf, raw, b.name, strings.Join(d, "; "), "net/http on a real connection delivers what the strict writer recorded"})
+						}
+					}
 					body := rec.Body.String()
 					if strings.Contains(strings.Join(rec.Snap.Values("Content-Encoding"), ","), "gzip") {
 						if dec, err := kit.Gunzip(rec.Body.Bytes()); err == nil {
